@@ -57,6 +57,20 @@ func init() {
 		if err := c.EmitIntConst(w, hp, "tokenNonceSize", "tokenNonceSize"); err != nil {
 			return err
 		}
+		w.P("/-! ### session ticket envelope (internal/handshake/session_ticket.go) -/")
+		if err := c.EmitIntConst(w, hp, "sessionTicketRevision", "sessionTicketRevision"); err != nil {
+			return err
+		}
+		if v, _, pos, ok := hp.Const("extraPrefix"); !ok || v.Kind() != constant.String {
+			return fmt.Errorf("string constant extraPrefix not found in %s", hp.Dir)
+		} else {
+			var bs []string
+			for _, ch := range []byte(constant.StringVal(v)) {
+				bs = append(bs, fmt.Sprint(ch))
+			}
+			w.P("/-- %s `extraPrefix` (bytes) -/", c.pos(pos))
+			w.P("def sessionStateExtraPrefix : List Nat := [%s]", strings.Join(bs, ", "))
+		}
 		w.P("/-! ### predicates on frame types (shape: comparisons against literals) -/")
 		// isValidRFC9000: `return t <= C`
 		if v, err := singleCompare(c, wp, "FrameType", "isValidRFC9000", token.LEQ); err != nil {
